@@ -34,28 +34,36 @@ class HardenPyyamlCallMixin:
             self.add_needed_import(YAML_MODULE_NAME)
 
         updated_node = cast(cst.Call, updated_node)  # satisfy the type checker
-        new_args = [
-            *updated_node.args[:1],
-            # This is the case where the arg is present but a bad value
+        safe_loader = self.parse_expression(f"{module_name}.SafeLoader")
+        new_args = list(updated_node.args)
+        # the loader is the second positional argument or the `Loader` keyword
+        loader_index = next(
             (
-                updated_node.args[1].with_changes(
-                    value=self.parse_expression(f"{module_name}.SafeLoader")
-                )
-                if len(updated_node.args) > 1
-                # This is the case where the arg is not present
-                # Note that this case is deprecated in PyYAML 5.1 since the default is unsafe
-                else cst.Arg(
+                index
+                for index, arg in enumerate(new_args)
+                if (index == 1 and arg.keyword is None and not arg.star)
+                or (arg.keyword is not None and arg.keyword.value == "Loader")
+            ),
+            None,
+        )
+        if loader_index is not None:
+            # This is the case where the arg is present but a bad value
+            new_args[loader_index] = new_args[loader_index].with_changes(
+                value=safe_loader
+            )
+        else:
+            # This is the case where the arg is not present
+            # Note that this case is deprecated in PyYAML 5.1 since the default is unsafe
+            new_args.append(
+                cst.Arg(
                     keyword=cst.Name("Loader"),
-                    value=self.parse_expression(f"{module_name}.SafeLoader"),
+                    value=safe_loader,
                     equal=cst.AssignEqual(
                         whitespace_before=cst.SimpleWhitespace(""),
                         whitespace_after=cst.SimpleWhitespace(""),
                     ),
                 )
-            ),
-            # anything after the loader argument stays
-            *updated_node.args[2:],
-        ]
+            )
         return self.update_arg_target(updated_node, new_args)
 
 
